@@ -63,7 +63,8 @@ def req (j : Json) : P Req := do
   | "sc" => pure (.scalarCoord (← nat (← at' a 1)) (← nat (← at' a 2)) (← cons (← at' a 3)) (← str (← at' a 4)) (← breq (← at' a 5)))
   | "ax" => pure (.aux (← nat (← at' a 1)) (← cons (← at' a 2)) (← list nat (← at' a 3)) (← str (← at' a 4)) (← breq (← at' a 5)))
   | "da" => pure (.domAnc (← nat (← at' a 1)) (← cons (← at' a 2)) (← list nat (← at' a 3)) (← str (← at' a 4)) (← breq (← at' a 5)))
-  | "ms" => pure (.msr (← nat (← at' a 1)) (← cons (← at' a 2)) (← list nat (← at' a 3)) (← str (← at' a 4)) (← str (← at' a 5)))
+  | "ms" => pure (.msr (← nat (← at' a 1)) (← cons (← at' a 2)) (← list nat (← at' a 3)) (← str (← at' a 4)) (← str (← at' a 5))
+                  (← (match a[6]? with | some x => optStr x | none => pure none)))
   | "ft" => pure (.formula (← nat (← at' a 1)) (← nat (← at' a 2))
                   (← list (fun t => do let b ← arr t; pure (← str (← at' b 0), ← nat (← at' b 1), ← list nat (← at' b 2))) (← at' a 3)))
   | "gm" => pure (.gridMap (← cons (← at' a 1)) (← str (← at' a 2)) (← list nat (← at' a 3)) (← bool (← at' a 4)))
@@ -90,6 +91,7 @@ def parseFix (s : String) : Option Fix :=
   match s with
   | "new" => some Fix.new
   | "old" => some Fix.old
+  | "unguarded" => some { Fix.new with globalsGuarded := false }
   | _ =>
     match s.toList with
     | [a, b, c, d, e, f] =>
